@@ -60,7 +60,9 @@ def make_pulse(rng, n, traceless, n_dt):
     return dict(d=d, c_opers=np.array(cops), c_ids=[f'C{i}' for i in range(n_c)],
                 c_coeffs=rng.standard_normal((n_c, n_dt)), n_opers=np.array(nops), n_ids=ids,
                 n_coeffs=rng.uniform(0.3, 1.5, (n_n, n_dt)), dt=rng.uniform(0.2, 1.2, n_dt),
-                basis=('pauli',), features=[] if traceless else ['nontraceless_nop'])
+                basis=('pauli',) if rng.random() < 0.75 else
+                ('derived', ('pauli',), 'permute', int(rng.integers(0, 2**31))),
+                features=[] if traceless else ['nontraceless_nop'])
 
 
 def permute_op(op, order, n):
